@@ -178,6 +178,18 @@ namespace bloch::cli {
             return paths;
         }
 
+        // The .qasm file sits next to the source: the source's own extension is replaced (a
+        // '.' in a directory name is not an extension), and a source that is itself called
+        // '*.qasm' is not overwritten.
+        std::filesystem::path qasmPathFor(const std::string& file) {
+            std::filesystem::path p(file);
+            if (p.extension() == ".qasm")
+                p += ".qasm";
+            else
+                p.replace_extension(".qasm");
+            return p;
+        }
+
         int runImpl(int argc, char** argv, const Context& ctx) {
             const std::string version(ctx.version);
             if (argc < 2) {
@@ -298,8 +310,7 @@ namespace bloch::cli {
                     double elapsed =
                         std::chrono::duration_cast<std::chrono::duration<double>>(end - start)
                             .count();
-                    std::string base = file.substr(0, file.find_last_of('.'));
-                    std::ofstream qfile(base + ".qasm");
+                    std::ofstream qfile(qasmPathFor(file));
                     qfile << qasm;
                     qfile.close();
 
@@ -370,8 +381,7 @@ namespace bloch::cli {
                     evaluator.setEcho(echoAll);
                     evaluator.execute(*program);
                     qasm = evaluator.getQasm();
-                    std::string base = file.substr(0, file.find_last_of('.'));
-                    std::ofstream qfile(base + ".qasm");
+                    std::ofstream qfile(qasmPathFor(file));
                     qfile << qasm;
                     qfile.close();
                     if (emitQasm) {
